@@ -28,7 +28,8 @@ the real RayGeometry object for the ray (i, j) and moved around by the model; af
 Numeric values: NumQ has no libm, so coefficient / beamspread / attenuation values are compared at NORMAL INCIDENCE (every
 conventional angle exactly 0.0: real interfaces stacked along an axis, dyadic coordinates, so that leg sizes are exact) with
 rational material constants; the model's exact rational is compared inside coqc with the exact rational of arim's binary64
-answer within 1e-13 relative (a handful of roundings); beamspread through b^2 * virtual_distance = 1 (and through
+answer within 1e-11 relative for the coefficients (a handful of roundings, amplified
+where two nearly equal impedance ratios are subtracted) and 1e-13 for the beamspread; beamspread through b^2 * virtual_distance = 1 (and through
 beamspread_idx itself whenever the virtual distance is a rational square), attenuation through log(result) = log_att.
 A second, small family uses a stub ray geometry (the accessor protocol only) to reach the branches real RayGeometry objects
 cannot reach (numinterfaces < 2, velocity tuples shorter than the path).
@@ -89,8 +90,8 @@ Fixpoint vel_ok (m e : list Q) : bool :=
   | x :: m', y :: e' => (Qeq_bool y (zq (-1)%Z) || Qeq_bool x y) && vel_ok m' e'
   | _, _ => false
   end.
-Definition tol : Q := 1 # 10000000000000.
-Definition qclose (m a : Q) : bool := Qle_bool (Qabs (m - a)) (tol * Qabs m).
+Definition tol : Q := 1 # 100000000000.          (* coefficients: 1e-11 relative (differences of nearly equal impedance ratios amplify the roundings) *)
+Definition tolb : Q := 1 # 10000000000000.       (* beamspread: sums of positive terms *)
 Definition cclose (m a : Q * Q) : bool :=
   let s := Qabs (fst m) + Qabs (snd m) in
   Qle_bool (Qabs (fst m - fst a)) (tol * s) && Qle_bool (Qabs (snd m - snd a)) (tol * s).
@@ -160,13 +161,13 @@ Definition chk_bs (c : raygeom Q * bool * Z * Q) : bool :=
   let full := if rv then reverse_beamspread_idx NumQ rg else beamspread_idx NumQ rg in
   match vd with
   | Raise e => Z.eqb (ecode e) code
-  | Ok d => Z.eqb code 1%Z && Qle_bool (Qabs (b * b * d - 1)) tol
+  | Ok d => Z.eqb code 1%Z && Qle_bool (Qabs (b * b * d - 1)) tolb
   end
   && match full with
      | Raise e => Z.eqb (ecode e) code
      | Ok m => Z.eqb code 1%Z &&
                match vd with
-               | Ok d => if Qeq_bool (nsqrt NumQ d) Qbad then true else qclose m b
+               | Ok d => if Qeq_bool (nsqrt NumQ d) Qbad then true else Qle_bool (Qabs (m - b)) (tolb * Qabs m)
                | Raise _ => false
                end
      end.
@@ -256,15 +257,6 @@ def law_coq(law):
     # np.polynomial.Polynomial(coeffs)(frequency / 1e6)
     return ("(Some (fun f : Q => let x := Qred (f / 1000000) in "
             f"Qred ({cQ(a[0])} + {cQ(a[1])} * x + {cQ(a[2])} * (x * x))))")
-
-
-def law_value(law, f_hz):
-    if law is None:
-        return None
-    if law[0] == "constant":
-        return Fr(law[1])
-    x = Fr(f_hz) / 1000000
-    return sum(Fr(c) * x ** k for k, c in enumerate(law[1]))
 
 
 class Mat:
@@ -468,8 +460,9 @@ def rand_law(rng):
         return None
     if u < 0.7:
         return ("constant", dy(rng, 0, 3))
+    # a0 + a1 x + a2 x^2 with x = frequency / 1e6 <= 8: at most 13 Np per unit length (exp(log_att) stays a normal number)
     deg = int(rng.integers(1, 3))
-    return ("polynomial", [dy(rng, 0, 1) for _ in range(deg + 1)])
+    return ("polynomial", [dy(rng, 0, 1), dy(rng, 0, 0.5, 8), dy(rng, 0, 0.125, 16)][:deg + 1])
 
 
 class Pool:
@@ -632,7 +625,7 @@ class Tie:
             return kind, "transmission", None
         return kind, "reflection", (pool.fluid() if rng.random() < 0.7 else pool.solid())
 
-    def gen_path(self, fixed=None):
+    def gen_path(self):
         arim, rng = self.arim, self.rng
         pool = Pool(arim, rng)
         u = rng.random()
@@ -681,7 +674,7 @@ class Tie:
         a_mo = [mode_arg(arim, rng, m) for m in modes]
         code, path, text = attempt(lambda: arim.Path(a_if, a_m, a_mo) if rng.random() < 0.5 else arim.Path(a_if, a_m, a_mo, name="p"))
         replay = dict(interfaces=[x.desc() for x in ifcs], materials=[m.desc() for m in mats], modes=modes,
-                      points=[p.coords.tolist() for p in pts], constructor=ENAME[code] + " " + text,
+                      constructor=ENAME[code] + " " + text,
                       correspondence="ppath_init / ppath_reverse (rg_reverse) / ppath_velocities / ray_geometry_from_path vs "
                                      "arim.Path(...) / Path.reverse() / Path.velocities / RayGeometry.from_path")
 
@@ -756,6 +749,7 @@ class Tie:
                 e_rev = [c2]
                 e_from_rev = [c2]
             replay["reverse_shown"] = [str(x) for x in e_rev]
+        replay["points"] = [p.coords.tolist() for p in pts]
         p_lit = path_coq(l_ifcs, l_mats, l_modes, rays_lit)
         lit = f"({p_lit}, ({qlist(e_init)}, {qlist(e_rev)}, {qlist(e_vel)}, {qlist(e_vel_rev)}, {qlist(e_from)}, {qlist(e_from_rev)}))"
         self.add("path", lit, replay, ctor_kind + ("" if code != 1 else ", rays" if rays_lit else ", no rays"))
@@ -800,13 +794,13 @@ class Tie:
             if unit != "stress":
                 kw["unit"] = unit
             call = lambda: fn(*args, **kw)                                      # noqa: E731
-        # the fluid's transverse velocity None used before any check the model orders first: not representable
         code, r, text = attempt(call)
         v = 0j
         if code == 1:
             v = complex(np.asarray(r).reshape(-1)[0])
         replay = dict(function=fn.__name__, kind=kind, material_inc=m_inc.desc(), material_other=None if m_oth is None else m_oth.desc(),
                       mode_inc=mi, mode_out=mo, force_complex=fc, unit=unit, arim=ENAME[code] + " " + text, arim_value=v,
+                      call_spelling=["positional", "keywords", "defaults left out (force_complex=True, unit='stress')"][s],
                       correspondence=("reflection_call" if refl else "transmission_call") + " (parse_unit unit) at angle 0 vs arim.model." + fn.__name__)
         cv = cval(v)
         if cv is None:
@@ -940,7 +934,7 @@ class Tie:
                 return False                 # an error is raised at this interface before any later one is visited
         return False
 
-    def gen_tr(self, fixed=None):
+    def gen_tr(self):
         arim, rng, model = self.arim, self.rng, self.model
         u = rng.random()
         perturb = []
@@ -972,7 +966,7 @@ class Tie:
                 path.modes = tuple(arim.Mode[m] for m in l_modes)
         p_lit = path_coq(S["ifcs"][:nP], l_mats, l_modes, None)
         r_lit = rg_coq(nI_, vel, leg, inc, out)
-        jj = S["d"][nR - 1] if nR <= nP else S["d"][nR - 1]
+        jj = S["d"][nR - 1]                  # the arrays have the shape of the ray geometry's end interfaces
         for rv in (False, True):
             fc = bool(rng.random() < 0.65)
             bad = "bad_unit" in perturb
@@ -1008,6 +1002,7 @@ class Tie:
                           ray_geometry=dict(numinterfaces=nI_, velocities=[float(x) for x in vel], legs=[float(x) for x in leg],
                                             conventional_inc_angle=[float(x) for x in inc]),
                           perturbations=perturb, arim=ENAME[code] + " " + text, arim_value=val,
+                          call_spelling=["positional", "keywords", "defaults left out (force_complex=True, unit='stress')"][s],
                           correspondence=("reverse_transmission_reflection_for_path" if rv else "transmission_reflection_for_path")
                           + " NumQ p rg force_complex unit vs arim.model." + fn.__name__ + "(path, ray_geometry, force_complex, unit)[i, j]")
             lit = f"({p_lit}, {r_lit}, {cbool(fc)}, {cstr(unit)}, {cbool(rv)}, {cZ(code)}, {cv})"
@@ -1108,7 +1103,9 @@ class Tie:
         a = None
         if code == 1:
             a = float(np.asarray(r)[i, j])
-            if not (a > 0 and math.isfinite(a)):
+            if not (a > 1e-290 and math.isfinite(a)):
+                # exp(log_att) underflowed (subnormal or 0): log(a) no longer determines log_att
+                self.chk.count(tie_C07="att:excluded (result underflows)")
                 self.skipped += 1
                 return
             la = math.log(a)
